@@ -370,6 +370,20 @@ Definition judge (p : str) (sfx : option str) (rules : list rule) (expires : lis
           let declared := parse_int (hget (rs_hdrs r) (bytes "content-length")) in
           let origin_lies := match declared with Some n => negb (n =? Z.of_nat (length (rs_body r))) | None => false end in
           let bodyless := str_eqb (q_method q) (bytes "HEAD") || (rs_status r =? 204) || (rs_status r =? 304) in
+          (* a 304 to rrrouter's own conditional request (the client sent no validator): the stored response is
+             what the client must get, whole *)
+          if (rs_status r =? 304) then
+            match ent with
+            | Some e =>
+              if existsb (str_eqb key) (w_unsure w) then v_ok
+              else if negb (st =? se_status e) then verdict false "after the origin confirmed the stored response (304) the client did not receive its status"
+              else if aborted then verdict false "the response was cut short of its declared length"
+              else if negb (str_eqb (q_method q) (bytes "HEAD")) && negb (str_eqb (cobs_body o) (se_body e))
+              then verdict false "after the origin confirmed the stored response (304) the client did not receive its full body"
+              else v_ok
+            | None => v_ok
+            end
+          else
           if negb (st =? rs_status r) then verdict false "the client did not receive the origin's status"
           else if aborted && negb origin_lies then verdict false "the response was cut short of its declared length"
           else if negb bodyless && negb origin_lies && negb (str_eqb (cobs_body o) (rs_body r)) then verdict false "the client did not receive the origin's full body"
